@@ -79,8 +79,8 @@ func degenerateAsset(s *Snap, denom string) bool {
 	return ok && a.TotalTokens.IsPositive() && a.TotalValidatorShares.IsZero()
 }
 
-// orphanedValidator: validator v carries token value in denom but no delegator shares
-// (all of its delegations were slashed away through redelegation slashing).
+// orphanedValidator: some validator carries token value in denom but (practically) no
+// delegator shares (its delegations were slashed away through redelegation slashing).
 func orphanedValidator(s *Snap, denom string) bool {
 	for i := range s.Vals {
 		vs, ok := s.Vals[i].ValShares[denom]
@@ -88,7 +88,10 @@ func orphanedValidator(s *Snap, denom string) bool {
 			continue
 		}
 		tds, ok2 := s.Vals[i].DelShares[denom]
-		if !ok2 || tds.IsZero() {
+		// less than one delegator share in total: the module itself treats this as "no
+		// shares" and prices new shares 1:1 (GetDelegationSharesFromTokens), i.e. the
+		// validator's value has effectively no owner
+		if !ok2 || tds.TruncateInt().IsZero() {
 			return true
 		}
 	}
